@@ -128,7 +128,11 @@ Variable normalize : str -> target.
 Variable chunker : str -> list str.
 Hypothesis chunker_ok : forall d, chunker d <> [] /\ concat (chunker d) = d.
 Variable dest_fl : flavour.        (* the destination's flavour: its doer writes link text back with [denormalize dest_fl] *)
-Hypothesis norm_idem : forall t, normalize (denormalize dest_fl (normalize t)) = normalize t.
+(* the link texts of a source tree survive the round trip through the destination (for the Unix
+   normaliser: exactly the texts that to_string_lossy leaves alone, i.e. well-formed UTF-8 - see
+   PathsProofs and known finding F7) *)
+Definition links_roundtrip (S : fs) : Prop :=
+  forall p t k, fget S p = Some (NLink t k) -> normalize (denormalize dest_fl (normalize t)) = normalize t.
 
 Notation entry_of := (entry_of now_z normalize).
 Notation valid_listing := (valid_listing now_z incl normalize).
@@ -210,14 +214,14 @@ Lemma mirror_from_effects diff ss S D0 D' (Ls Ld : listing) :
   (forall p e, In (p, e) Ld -> exists n, fget D0 p = Some n /\ e = entry_of n) ->
   (forall p, In p (lkeys Ls) <-> (takes_part S p /\ fget S p <> None)) ->
   (forall p, In p (lkeys Ld) <-> (takes_part D0 p /\ fget D0 p <> None)) ->
-  wf_fs S -> src_times_set S -> fget S [] <> None ->
+  wf_fs S -> src_times_set S -> links_roundtrip S -> fget S [] <> None ->
   let acts := plan_spec diff ss Ls Ld in
   (forall p e r, In (p, (e, r)) (a_copy acts) -> fget D' p = Some (planned_node dest_fl S p e)) ->
   (forall p, ~ In p (map fst (a_copy acts)) -> In p (map fst (a_delete acts)) -> fget D' p = None) ->
   (forall p, ~ In p (map fst (a_copy acts)) -> ~ In p (map fst (a_delete acts)) -> fget D' p = fget D0 p) ->
-  mirror now_z incl normalize dest_fl S D0 D'.
+  mirror now_z incl normalize diff dest_fl S D0 D'.
 Proof.
-  intros HndS HndD HeS HeD HkS HkD Hwf Hts Hroot acts E1 E2 E3 p.
+  intros HndS HndD HeS HeD HkS HkD Hwf Hts Hlinks Hroot acts E1 E2 E3 p.
   assert (HinS : forall q, In q (lkeys Ls) -> exists n, fget S q = Some n /\ In (q, entry_of n) Ls).
   { intros q Hq. apply in_map_iff in Hq as ([q' e] & <- & Hin). destruct (HeS _ _ Hin) as (n & En & ->). eauto. }
   assert (HinD : forall q, In q (lkeys Ld) -> exists n, fget D0 q = Some n /\ In (q, entry_of n) Ld).
@@ -270,19 +274,19 @@ Proof.
         -- (* incompatible: deleted and re-created *)
            assert (Hc : In (p, (entry_of ns, NotOnDest)) (a_copy acts)).
            { apply in_copy_iff. split; auto. unfold copy_dec, copy_decision. rewrite (alookup_in Ld p (entry_of nd)) by auto. rewrite Hnd. left; reflexivity. }
-           specialize (E1 _ _ _ Hc). rewrite E1. clear -Hts EnS norm_idem.
+           specialize (E1 _ _ _ Hc). rewrite E1. clear -Hts EnS Hlinks.
            destruct ns as [m b| |t k]; cbn [Fs.entry_of planned_node].
            ++ left. destruct (Hts _ _ _ EnS) as (t & ->). cbn [stamp_z]. unfold file_data. rewrite EnS. reflexivity.
            ++ reflexivity.
-           ++ eexists; eexists. split; [reflexivity|apply norm_idem].
+           ++ eexists; eexists. split; [reflexivity|]. split; [eapply Hlinks; eauto|right; reflexivity].
         -- destruct (needs_copy ss (entry_of ns) (entry_of nd)) as [r|] eqn:Hnc.
            ++ assert (Hc : In (p, (entry_of ns, r)) (a_copy acts)).
               { apply in_copy_iff. split; auto. unfold copy_dec, copy_decision. rewrite (alookup_in Ld p (entry_of nd)) by auto. rewrite Hnd, Hnc. left; reflexivity. }
-              specialize (E1 _ _ _ Hc). rewrite E1. clear -Hts EnS norm_idem.
+              specialize (E1 _ _ _ Hc). rewrite E1. clear -Hts EnS Hlinks.
               destruct ns as [m b| |t k]; cbn [Fs.entry_of planned_node].
               ** left. destruct (Hts _ _ _ EnS) as (t & ->). cbn [stamp_z]. unfold file_data. rewrite EnS. reflexivity.
               ** reflexivity.
-              ** eexists; eexists. split; [reflexivity|apply norm_idem].
+              ** eexists; eexists. split; [reflexivity|]. split; [eapply Hlinks; eauto|right; reflexivity].
            ++ (* up to date: neither copied nor deleted *)
               assert (Hnc' : ~ In p (map fst (a_copy acts))).
               { intros Hq. apply in_map_iff in Hq as ([q [e r]] & Hq1 & Hq2). cbn [fst] in Hq1. subst q.
@@ -302,15 +306,18 @@ Proof.
               ** exact EnD.
               ** exists t', k'. split; [exact EnD|].
                  destruct (target_eqb (normalize t) (normalize t')) eqn:Et; cbn [negb] in Hnd; [|discriminate].
-                 apply target_eqb_eq in Et. congruence.
+                 apply target_eqb_eq in Et. split; [congruence|].
+                 destruct diff; [right|left; reflexivity].
+                 destruct (skind_eqb k k') eqn:Ek; cbn [negb andb] in Hnd; [|discriminate].
+                 destruct k, k'; try discriminate; reflexivity.
       * (* the destination does not list p: p is new *)
         assert (Hc : In (p, (entry_of ns, NotOnDest)) (a_copy acts)).
         { apply in_copy_iff. split; auto. unfold copy_dec, copy_decision. rewrite HaD. left; reflexivity. }
-        specialize (E1 _ _ _ Hc). rewrite E1. clear -Hts EnS norm_idem.
+        specialize (E1 _ _ _ Hc). rewrite E1. clear -Hts EnS Hlinks.
         destruct ns as [m b| |t k]; cbn [Fs.entry_of planned_node].
         -- left. destruct (Hts _ _ _ EnS) as (t & ->). cbn [stamp_z]. unfold file_data. rewrite EnS. reflexivity.
         -- reflexivity.
-        -- eexists; eexists. split; [reflexivity|apply norm_idem].
+        -- eexists; eexists. split; [reflexivity|]. split; [eapply Hlinks; eauto|right; reflexivity].
     + (* the source has nothing at p: p must be a destination entry, and it is deleted *)
       rewrite HpN.
       assert (HpD : In p (lkeys Ld)).
@@ -339,13 +346,13 @@ Proof. cbn [doer_exec]. destruct (d_anc st); cbn; auto. Qed.
 
 Theorem mirror_theorem cfg S D ans bits ls ld ft :
   valid_listing S ls -> valid_listing (d_fs D) ld ->
-  wf_fs S -> src_times_set S -> d_open D = None ->
+  wf_fs S -> src_times_set S -> links_roundtrip S -> d_open D = None ->
   let r := sync_one cfg S D ans bits ls ld ft in
   r_ok r = true -> r_skipped r = [] -> r_root_skipped r = false -> cf_dry cfg = false ->
   no_through (d_events (r_dest r)) -> cf_fl cfg = dest_fl ->
-  mirror now_z incl normalize dest_fl S (d_fs D) (d_fs (r_dest r)).
+  mirror now_z incl normalize (cf_diff cfg) dest_fl S (d_fs D) (d_fs (r_dest r)).
 Proof.
-  intros HvS HvD Hwf Hts Hopen. cbv zeta. unfold Sync.sync_one.
+  intros HvS HvD Hwf Hts Hlinks Hopen. cbv zeta. unfold Sync.sync_one.
   destruct (side_listing_spec S ls HvS) as (HndS & HeS & HkS).
   destruct (side_listing_spec (d_fs D) ld HvD) as (HndD & HeD & HkD).
   unfold Mirror.side_listing in HndS, HeS, HkS, HndD, HeD, HkD.
